@@ -347,6 +347,9 @@ def mutable_ids(obj, seen=None, depth=0):
     return out
 
 
+ACTIONS = {}
+
+
 class Binding:
     """One real model driven along one spec behaviour."""
 
@@ -469,7 +472,8 @@ class Binding:
         rng.shuffle(tie)
         new_name = None
         if rng.random() < 0.5:
-            new_name = "tied%d" % rng.randrange(100)
+            self.ntied = getattr(self, "ntied", 0) + 1
+            new_name = "tied%d_%d" % (self.ntied, rng.randrange(100))   # never an existing name
         before_names = list(names)
         before_maps = copy.deepcopy(m._maps) if hasattr(m, "_maps") else None
         try:
@@ -579,6 +583,7 @@ def replay_behaviour(ctx, g, t, st0, path, rng, with_roundtrip=False):
         if fails:
             break
         nxt = g.states[e[3]]
+        ACTIONS[e[1]] = ACTIONS.get(e[1], 0) + 1
         if e[1] == "AddTieUnknown":
             b.add_tie_unknown(fail)
         else:
@@ -679,6 +684,10 @@ def run(ctx):
                                                          "siteParam": list(cur["siteParam"])}})
     ctx.exhaustive = not quick
     ctx.notes["behaviours_replayed"] = nbeh
+    ctx.notes["actions_replayed"] = dict(ACTIONS)
+    for a in ("AddTie", "AddTieRejected", "AddTieUnknown"):
+        if not ACTIONS.get(a):
+            raise harness.MachineryError("vacuous replay: no %s edge was exercised" % a)
 
 
 if __name__ == "__main__":
